@@ -205,6 +205,19 @@ def build_hg(b, n, edges, weighted, rng, all_nodes=None, churn=True):
                     pass
         for i in extra[len(extra) // 2:]:
             obj.add_node(b.lab(i))
+        if churn and all_nodes is None and rng.random() < 0.2:
+            # a node is removed with its hyperedges SHRUNK (remove_node(keep_edges=True)): hyperedges change their node set while
+            # others were added after them, shrunk hyperedges may merge with existing ones (the case is the state observed afterwards);
+            # not when a singleton hyperedge of that node exists (it would become the empty hyperedge: DESIGN section 5)
+            present = sorted({x for e in edges for x in e if len(e) >= 2} - {e[0] for e in edges if len(e) == 1})
+            if present:
+                x = rng.choice(present)
+                try:
+                    obj.remove_node(b.lab(x), keep_edges=True)
+                    if rng.random() < 0.5:
+                        obj.add_node(b.lab(x))
+                except Exception:
+                    pass
     return obj
 
 
